@@ -78,6 +78,7 @@ macro_rules! dispatch {
             "C11" => $f::<props::c11::C11>($($args),*),
             "C12" => $f::<props::c12::C12>($($args),*),
             "C14" => $f::<props::c14::C14>($($args),*),
+            "C16" => $f::<props::c16::C16>($($args),*),
             "C17" => $f::<props::c17::C17>($($args),*),
             "C19" => $f::<props::c19::C19>($($args),*),
             other => {
@@ -94,7 +95,9 @@ fn main() {
     let keyfile = PathBuf::from(std::env::var("KVH_KEYS").unwrap_or("/verif/cache/keys.pem".into()));
     // keep panic output quiet: panics inside krill are caught and attributed
     if std::env::var("KVH_PANIC_TRACE").is_err() {
-        std::panic::set_hook(Box::new(|_| {}));
+        std::panic::set_hook(Box::new(|info| {
+            world::note_panic_location(info.location().map(|l| format!("{}:{}", l.file(), l.line())));
+        }));
     }
     match cmd {
         "genkeys" => genkeys(args[2].parse().unwrap(), &args[3]),
